@@ -104,8 +104,8 @@ def gen(repo):
     top_s = call_order(defn(src, "getStatic"), ["lexicallyRejected", "getStaticEmbedded", "getStaticFilesystem"], "getStatic")
     top_t = call_order(defn(src, "getTemplate"), ["lexicallyRejected", "findTemplate", "getTemplateFilesystem"], "getTemplate")
     # which root each lookup uses as containment base and as candidate prefix
-    bs = re.findall(r"_fs->(\w+Root)", defn(src, "getStaticFilesystem"))
-    bt = re.findall(r"_fs->(\w+Root)", defn(src, "getTemplateFilesystem"))
+    bs = re.findall(r"_fs->(\w*[Rr]oot)\b", defn(src, "getStaticFilesystem"))
+    bt = re.findall(r"_fs->(\w*[Rr]oot)\b", defn(src, "getTemplateFilesystem"))
     if set(bs) != {"staticsRoot"} or set(bt) != {"templatesRoot"}:
         raise TranslateError("lookup roots: static uses %s, template uses %s" % (sorted(set(bs)), sorted(set(bt))))
     # ---------------------------------------------------------------- MIME table
